@@ -6,12 +6,14 @@ import Mochi.Driver.Ledger
 import Mochi.Driver.BufPool
 import Mochi.Driver.WsConn
 import Mochi.Driver.Codec
+import Mochi.Driver.Broker
 open Mochi.Driver
 
 structure DState where
   topics : TState := {}
   ledger : LState := {}
   bufpool : BState := {}
+  broker : BkState := {}
 
 /-- input line: `op args…<TAB>implementation output`;
     answer line: `model output<TAB>spec verdict<TAB>signature`; unknown op => `bad-op` -/
@@ -36,7 +38,10 @@ def answer (st : DState) (line : String) : DState × String :=
         | none =>
           match bufpoolOp st.bufpool impl ws with
           | some (b', r) => ({ st with bufpool := b' }, fmt r)
-          | none => (st, "bad-op")
+          | none =>
+            match brokerOp st.broker impl ws with
+            | some (k', r) => ({ st with broker := k' }, fmt r)
+            | none => (st, "bad-op")
 
 partial def loop (h : IO.FS.Stream) (out : IO.FS.Stream) (st : DState) : IO Unit := do
   let line ← h.getLine
